@@ -34,20 +34,6 @@ Qed.
 (* A by-value struct slot must already hold a struct value with one cell per
    descriptor field (the decoder indexes into it), and so must, recursively,
    its own by-value struct fields.  Nothing is asked of any other slot. *)
-Fixpoint prior_ok (env : senv) (t : ty) (p : val) {struct p} : bool :=
-  match p with
-  | VT ps _ =>
-      match t with
-      | TStruct sid =>
-          match lookup_sd env sid with
-          | Some sd => fields_all (fun f p' => prior_ok env (fty f) p') (sfields sd) ps
-          | None => true
-          end
-      | _ => true
-      end
-  | _ => match t with TStruct _ => false | _ => true end
-  end.
-
 Definition is_struct_ty (t : ty) : bool := match t with TStruct _ => true | _ => false end.
 
 Lemma prior_ok_nonstruct : forall env t p, is_struct_ty t = false -> prior_ok env t p = true.
@@ -64,18 +50,7 @@ Lemma prior_ok_struct_inv : forall env sid p, prior_ok env (TStruct sid) p = tru
   exists ps ph, p = VT ps ph.
 Proof. intros env sid p H. destruct p; try discriminate H. eexists. eexists. reflexivity. Qed.
 
-(* InitDefault assigns well-shaped values to by-value struct fields *)
-Definition init_ok (env : senv) : bool :=
-  forallb (fun sd =>
-             match sinit sd with
-             | Some asg =>
-                 forallb (fun iv : nat * val =>
-                            match nth_error (sfields sd) (fst iv) with
-                            | Some f => prior_ok env (fty f) (snd iv)
-                            | None => true
-                            end) asg
-             | None => true
-             end) env.
+
 
 (* ------------------------------------------------------------------ *)
 (* lists                                                                *)
